@@ -83,8 +83,12 @@ def aerostruct_problem(surface, vals=None, compressible=False, rotational=False)
     pt = "AS_point_0"
     for sf in surfaces:
         prob.model.add_subsystem(sf["name"], AerostructGeometry(surface=sf))
-    prom = ["v", "alpha", "beta", "Mach_number", "re", "rho", "CT", "R", "W0", "speed_of_sound", "empty_cg", "load_factor"] + (["omega", "cg"] if rotational else [])
+    prom = ["v", "alpha", "beta", "Mach_number", "re", "rho", "CT", "R", "W0", "speed_of_sound", "empty_cg", "load_factor"]
     prob.model.add_subsystem(pt, AerostructPoint(surfaces=list(surfaces), compressible=compressible, rotational=rotational), promotes_inputs=prom)
+    if rotational:
+        # AerostructPoint does not promote the rotational inputs of its aerodynamic states: they are reached by path
+        prob.model.connect("omega", pt + ".coupled.aero_states.omega")
+        prob.model.connect("cg", pt + ".coupled.aero_states.cg")
     for sf in surfaces:
         name = sf["name"]
         com = pt + "." + name + "_perf"
